@@ -67,7 +67,10 @@ ObsInit == [
   expect   |-> [v \in VB |-> <<>>],       \* C03: document events that must be delivered, in order (this request)
   got      |-> [v \in VB |-> <<>>],       \* C03: what was delivered (this request)
   inpush   |-> [v \in VB |-> FALSE],      \* an event was handed to the observer and the call has not returned
-  mustdie  |-> FALSE,                     \* C06/C15: a fail-stop condition was presented; the next thing must be Died
+  mustdie  |-> FALSE,                     \* C06: an event outside its snapshot was presented; the next thing must be Died
+  pend     |-> {},                        \* C15: start-up conditions that forbid a session and have not been overcome by a later
+                                          \*      successful attempt: "load", "seq", "folog", "ahead", "partial"
+  pendopen |-> {},                        \* C15: assigned vBuckets whose stream request was refused (and not granted since)
   \* ---- store ---------------------------------------------------------------
   store    |-> [v \in VB |-> NoOff],
   news     |-> FALSE,                     \* an ack / non-document advance happened that no save has picked up yet
@@ -127,13 +130,13 @@ ApBoot(o, e) ==
             !.burstOpen = FALSE, !.ended = {}, !.reopen = {}, !.closeCalled = FALSE, !.closeReturned = FALSE,
             !.stoppedSeen = FALSE, !.finalFailed = FALSE, !.closereq = {}, !.high = [v \in VB |-> 0 - 1], !.nreb = 0,
             !.kcnt = [v \in VB |-> <<0, 0, 0>>], !.lastdoc = [v \in VB |-> ""],
-            !.up = TRUE, !.boots = @ + 1, !.saves = {}, !.closing = FALSE, !.mustdie = FALSE,
+            !.up = TRUE, !.boots = @ + 1, !.saves = {}, !.closing = FALSE, !.mustdie = FALSE, !.pend = {}, !.pendopen = {},
             !.streaming = [v \in VB |-> FALSE], !.inpush = [v \in VB |-> FALSE], !.range = {},
             !.adv = [v \in VB |-> 0 - 1], !.conf = [v \in VB |-> StoreSeq(o, v)], !.news = FALSE, !.owned = {},
             !.gate = FALSE, !.tab = [v \in VB |-> <<>>], !.best = [v \in VB |-> 0], !.gwait = [v \in VB |-> 0 - 1],
             !.padv = [v \in VB |-> 0 - 1], !.psess = [v \in VB |-> 0 - 1], !.pdead = [v \in VB |-> FALSE], !.lthr = [v \in VB |-> 0]]
 
-ApDied(o, e) == [o EXCEPT !.up = FALSE, !.mustdie = FALSE]
+ApDied(o, e) == [o EXCEPT !.up = FALSE, !.mustdie = FALSE, !.pend = {}, !.pendopen = {}]
 
 \* metadata.Load(vbs): a stream session begins for exactly these vBuckets
 ApLoad(o, e) ==
@@ -143,21 +146,22 @@ ApLoad(o, e) ==
             !.kcnt = [v \in VB |-> <<0, 0, 0>>], !.lastdoc = [v \in VB |-> ""],
             !.saves = {[x EXCEPT !.need = [v \in VB |-> 0 - 1]] : x \in @},
             !.range = SeqToSet(e.vbs), !.adv = [v \in VB |-> 0 - 1], !.closing = FALSE,
-            !.sess = [v \in VB |-> {}]],
+            !.sess = [v \in VB |-> {}], !.pend = {}, !.pendopen = {}],        \* (a new attempt to start a session)
   SeqToSet(e.vbs) = ChunkSet(o.minfo), "C11", "session opened on a range that is not that of the most recent membership")
 
 \* GetVBucketSeqNos answered: e.ok, e.high
 ApSeqNos(o, e) ==
   IF e.scrape THEN [o EXCEPT !.shigh = e.high]
-  ELSE IF ~e.ok THEN [o EXCEPT !.mustdie = TRUE]
+  ELSE IF ~e.ok THEN [o EXCEPT !.pend = @ \cup {"seq"}]
   ELSE LET latest == e.latest /\ \A v \in o.range : o.store[v] = NoOff
            ahead == ~latest /\ \E v \in o.range : o.store[v] # NoOff /\ o.store[v].seq > e.high[v]
            \* the backend handed back documents for only part of the assignment
            partial == e.partial /\ (\E v \in o.range : o.store[v] # NoOff) /\ (\E v \in o.range : o.store[v] = NoOff)
-       IN [o EXCEPT !.high = e.high, !.mustdie = ahead \/ partial, !.latest = e.latest]
+       IN [o EXCEPT !.high = e.high, !.latest = e.latest,
+                    !.pend = (@ \ {"seq", "ahead", "partial"}) \cup (IF ahead THEN {"ahead"} ELSE {}) \cup (IF partial THEN {"partial"} ELSE {})]
 
 \* a start-up query failed (metadata.Load, failover log)
-ApFail(o, e) == [o EXCEPT !.mustdie = TRUE]
+ApFail(o, e) == [o EXCEPT !.pend = @ \cup {IF e.what = "Load" THEN "load" ELSE "folog"}]
 
 \* client.OpenStream(vb, offset): a stream request. e.off, e.end
 \* (a first request of a session, or a re-open after a transient end)
@@ -170,7 +174,9 @@ ApOpenReq(o, e) ==
       o1 == [o EXCEPT !.resume[v] = e.off, !.sess[v] = IF isReopen THEN @ \cup {e.off.seq} ELSE {e.off.seq},
                 !.ever[v] = @ \cup {e.off.seq},
                 !.streaming[v] = TRUE, !.expect[v] = <<>>, !.got[v] = <<>>,
-                !.snap[v] = <<0 - 1, 0 - 1>>, !.catchF[v] = 0 - 1,
+                !.snap[v] = <<0 - 1, 0 - 1>>,
+                \* (a re-open hands the same observer to the new stream: a catch-up mark armed by an earlier rollback stays armed)
+                !.catchF[v] = IF isReopen THEN @ ELSE 0 - 1,
                 !.origin[v] = @ \cup {e.off}, !.reopen = @ \ {v}, !.closereq = @ \ {v},
                 !.kcnt[v] = IF isReopen THEN @ ELSE <<0, 0, 0>>, !.lastdoc[v] = "",
                 !.adv[v] = IF isReopen THEN @ ELSE IF fresh THEN e.off.seq ELSE 0 - 1,
@@ -183,7 +189,11 @@ ApOpenReq(o, e) ==
                        ValidOff(e.off) /\ e.off \in o.origin[v], "C12",
                        "re-open after a transient end does not carry the settled event's own snapshot / branch")
             ELSE o3
-      o5 == Check(o4, o.high[v] < 0 \/ e.off.seq <= o.high[v], "C15",
+      \* (an inconsistent or partial checkpoint is noticed vBucket by vBucket while the streams are being requested: requests for
+      \* the other vBuckets may be on their way; a failed query precedes every request)
+      o4b == Check(o4, o.pend \cap {"load", "seq", "folog"} = {}, "C15",
+                   "a stream was requested although checkpoints / sequence numbers / failover logs could not be loaded")
+      o5 == Check(o4b, o.high[v] < 0 \/ e.off.seq <= o.high[v], "C15",
                   "stream requested from a position the server has not reached")
       \* C02: what a session's first request for v must carry
       noneStored == \A w \in o.range : o.store[w] = NoOff
@@ -203,8 +213,8 @@ ApOpenReq(o, e) ==
 \* opened after a rollback to e.r (then e.f = position the client had reached)
 ApOpenRet(o, e) ==
   LET v == e.vb IN
-  IF e.ok THEN [o EXCEPT !.uuid[v] = e.uuid, !.catchF[v] = IF e.rollback THEN e.f ELSE 0 - 1]
-  ELSE [o EXCEPT !.streaming[v] = FALSE, !.mustdie = IF o.phase \in {"st1", "re2"} THEN TRUE ELSE @]
+  IF e.ok THEN [o EXCEPT !.uuid[v] = e.uuid, !.catchF[v] = IF e.rollback THEN e.f ELSE @, !.pendopen = @ \ {v}]
+  ELSE [o EXCEPT !.streaming[v] = FALSE, !.pendopen = IF o.phase \in {"st1", "re2"} THEN @ \cup {v} ELSE @]
 
 \* ---- C07 ---------------------------------------------------------------------------------------------------
 \* the largest s such that every listed copy has reported, under one common vbUUID, a persisted seqno >= s (0: none)
@@ -434,7 +444,8 @@ ApCallback(o, e) ==
       o4 == IF e.name = "AfterStreamStart"
             THEN Check(Check(o3, \A v \in o.range : o.streaming[v] \/ v \in o.ended \/ v \in o.reopen, "C15",
                              "session runs although not every assigned vBucket stream was opened"),
-                       ~o.mustdie, "C15", "start-up went on after a failed query or an inconsistent checkpoint")
+                       o.pend = {} /\ o.pendopen = {}, "C15",
+                       "a session runs although checkpoints / sequence numbers could not be loaded, a checkpoint lies beyond the high seqno, or a stream request was refused")
             ELSE o3
   IN  o4
 
@@ -510,7 +521,9 @@ ApQuiesced(o, e) ==
             THEN Viol(o1, "C12", "every assigned vBucket stream ended for good but the client did not stop") ELSE o1
       o3 == IF o.closeCalled \/ o.stoppedSeen
             THEN Check(o2, o.closeReturned, "C13", "Close() did not return although nothing was pending any more") ELSE o2
-  IN  IF o.up THEN GateIdle(o3) ELSE o3
+      o4 == IF o.up THEN Check(o3, o.pend = {} /\ o.pendopen = {}, "C15",
+                               "the client neither terminated nor overcame a failed start-up query / refused stream request") ELSE o3
+  IN  IF o.up THEN GateIdle(o4) ELSE o4
 
 ApDiedLife(o, e) ==
   IF o.closeCalled /\ ~o.closeReturned THEN Viol(o, "C13", "the client crashed inside Close()") ELSE o
@@ -533,7 +546,7 @@ ApState(o, e) ==
             THEN Check(o3, e.active = Cardinality(o.range \ o.ended), "C12",
                        "active-stream count differs from the number of assigned vBuckets not finally ended")
             ELSE o3
-      o5 == Check(o4, ~o.mustdie, "C15", "the client kept running after a fail-stop condition")
+      o5 == o4
       o6 == Check(o5, \A v \in VB : e.thr[v] <= o.best[v], "C07", "the threshold of a stream is ahead of what the listed copies reported")
       o7 == Check(o6, \A v \in VB : e.thr[v] >= o.lthr[v], "C07", "the threshold of a stream decreased")
   IN  [o7 EXCEPT !.lthr = e.thr]
